@@ -23,6 +23,8 @@ type Scenario struct {
 	Nodes   []NodeSpec     `json:"nodes"`
 	Pods    []PodSpec      `json:"pods"`
 	PDBs    []PDBSpec      `json:"pdbs"`
+	// DaemonSets: DaemonSet objects (C06 scenarios; see c06.go)
+	DaemonSets []DSSpec `json:"daemonsets,omitempty"`
 	// T0: the clock value at which the cluster is complete and the first step runs. Nominations and
 	// other clock-dependent in-memory marks are applied on the way there, at their own instants.
 	T0    int    `json:"t0"`
@@ -37,6 +39,14 @@ type Options struct {
 	CapacityBuffer  bool   `json:"capacityBuffer"`
 	// Project: "" | "c06" (Cmd/QCmd additionally carry the SchedulingGuards-shaped cluster and claims, see c06.go)
 	Project string `json:"project,omitempty"`
+}
+
+// DSSpec: a DaemonSet object (C06 scenarios); its pods are PodSpecs with DS = its name.
+type DSSpec struct {
+	Name  string            `json:"name"`
+	CPU   int               `json:"cpu"`
+	MemMi int               `json:"memMi"`
+	Sel   map[string]string `json:"sel,omitempty"` // nodeSelector of the pod template, short keys
 }
 
 type OfferingSpec struct {
@@ -161,6 +171,8 @@ type PodSpec struct {
 	// Sel: nodeSelector with the short keys of spec/SCHED_TRACE.md (zone, ct, it, ...); Tol: extra tolerations (C06 scenarios)
 	Sel map[string]string `json:"sel,omitempty"`
 	Tol []TolSpec         `json:"tol,omitempty"`
+	// DS: the pod belongs to this DaemonSet of Scenario.DaemonSets (owner reference to the real object)
+	DS string `json:"ds,omitempty"`
 }
 
 type PDBSpec struct {
